@@ -6,8 +6,10 @@
    calls before run_forever() and from inside actions), the other threads are foreign.
    [ts]: thread-safe scheduler or plain one; [fixed]: _on_self_loop_or_not_running as repaired
    (proposed_fixes/C33-foreign-thread-cancel-marshalled.diff, applied to /repo).
-   The theorems hold for the thread-safe scheduler as repaired with ANY foreign threads, and for either
-   scheduler when only the loop thread uses it (the intended use of the plain AsyncIOScheduler).
+   The theorems hold for the thread-safe scheduler as repaired with ANY foreign threads, for either
+   scheduler when only the loop thread uses it (the intended use of the plain AsyncIOScheduler), and -- IN
+   THIS MODEL, where a plain dispose() (handle.cancel()) and the loop's test-and-run of a handle are single
+   steps -- for the plain scheduler with any foreign threads as well (C33_cancel_effective_plain/_all).
    The loop may be stopped and run again any number of times ([AStop] = loop.stop(), from an action, from
    the loop thread between two runs, or from any thread; run_forever() returns between two iterations of
    _run_once with whatever is queued still queued; [segs] = what the loop thread calls before each further
@@ -18,7 +20,7 @@
    then dispose() has not returned yet (C33_ex_stop_with_cancel_queued).
    Assumption of the property, built into the system: the loop does not start (again) while a dispose()
    that found it not running is in progress. *)
-From RxVerif Require Import Base.Prelude Core.AsyncIO Core.AsyncIOFacts Core.AsyncIOTime.
+From RxVerif Require Import Base.Prelude Core.AsyncIO Core.AsyncIOFacts Core.AsyncIOTime Core.AsyncIOPlain.
 Local Open Scope Z_scope.
 
 (* once dispose() on the returned disposable has returned, the action does not start -- for every
@@ -41,6 +43,60 @@ Theorem C33_dispose_returns_cancelled : forall ts fixed abody t0 pre segs progs 
 Proof. exact aio_dispose_returns_cancelled. Qed.
 Print Assumptions C33_dispose_returns_cancelled.
 
+(* the PLAIN AsyncIOScheduler with ANY foreign threads (repaired predicate or not): in the model each plain
+   call owns one handle, its dispose() always takes the direct path and is one atomic step (handle.cancel()),
+   and the loop tests the flag in the same step in which it runs the handle *)
+Theorem C33_cancel_effective_plain : forall fixed abody t0 pre segs progs sched l1 u l2,
+  AL_ (arun false fixed abody (ainit t0 pre segs progs) sched) = l1 ++ ADispRet u :: l2 -> ~ In (AStart u) l2.
+Proof. exact aio_cancel_effective_plain. Qed.
+Print Assumptions C33_cancel_effective_plain.
+
+Theorem C33_dispose_returns_cancelled_plain : forall fixed abody t0 pre segs progs sched u h,
+  let c := arun false fixed abody (ainit t0 pre segs progs) sched in
+  In (ADispRet u) (AL_ c) -> owner (a_sh c) h = Some u -> amem h (acanc (a_sh c)) = true.
+Proof. exact aio_dispose_returns_cancelled_plain. Qed.
+Print Assumptions C33_dispose_returns_cancelled_plain.
+
+(* ... why: no foreign thread is ever in the middle of a plain dispose() *)
+Theorem C33_plain_dispose_atomic : forall fixed abody t0 pre segs progs sched tid cur todo,
+  nth_error (a_ths (arun false fixed abody (ainit t0 pre segs progs) sched)) tid = Some (AF cur todo) -> cur = None.
+Proof. exact aio_plain_dispose_atomic. Qed.
+Print Assumptions C33_plain_dispose_atomic.
+
+(* both classes under one statement: the side condition is needed for the thread-safe class only *)
+Theorem C33_cancel_effective_all : forall ts fixed abody t0 pre segs progs sched l1 u l2,
+  (ts = true -> fixed = true \/ progs = []) ->
+  AL_ (arun ts fixed abody (ainit t0 pre segs progs) sched) = l1 ++ ADispRet u :: l2 -> ~ In (AStart u) l2.
+Proof. exact aio_cancel_effective_all. Qed.
+Print Assumptions C33_cancel_effective_all.
+
+Theorem C33_dispose_returns_cancelled_all : forall ts fixed abody t0 pre segs progs sched u h,
+  (ts = true -> fixed = true \/ progs = []) ->
+  let c := arun ts fixed abody (ainit t0 pre segs progs) sched in
+  In (ADispRet u) (AL_ c) -> owner (a_sh c) h = Some u -> amem h (acanc (a_sh c)) = true.
+Proof. exact aio_dispose_returns_cancelled_all. Qed.
+Print Assumptions C33_dispose_returns_cancelled_all.
+
+(* the theorems above speak of the dispose() call that won the test-and-set of Disposable (ADispRet).  A further
+   dispose() of the same disposable returns at once (ADispNoop): if the winner has returned before, the action
+   does not start after the no-op return either ... *)
+Theorem C33_noop_after_winner_returned : forall ts fixed abody t0 pre segs progs sched l1 u l2,
+  (ts = true -> fixed = true \/ progs = []) ->
+  AL_ (arun ts fixed abody (ainit t0 pre segs progs) sched) = l1 ++ ADispNoop u :: l2 ->
+  In (ADispRet u) l1 -> ~ In (AStart u) l2.
+Proof. exact aio_noop_after_winner_returned. Qed.
+Print Assumptions C33_noop_after_winner_returned.
+
+(* ... but NOT while the winner is still waiting in future.result(): T1 schedule(), T1 dispose() (marshalled,
+   waits), T2 dispose() (no-op, returns at once), the loop runs the action.  The literal text "once dispose()
+   has returned" is false for a second, concurrent dispose(); the property is kept for the winning call only *)
+Theorem C33_noop_dispose_refuted :
+  map snd (a_log noop_witness) = [ARet 0; ADispNoop 0; AStart 0]%nat /\
+  nth_error (a_ths noop_witness) 1 = Some (AF (Some (FWait 0 0)) []) /\
+  ~ In (ADispRet 0%nat) (map snd (a_log noop_witness)).
+Proof. exact aio_noop_dispose_refuted. Qed.
+Print Assumptions C33_noop_dispose_refuted.
+
 (* a thread in future.result() does not move while the future has no result (only cancel_handle, run by the
    loop, sets it): while the loop is stopped the dispose() blocks *)
 Theorem C33_wait_blocks : forall ts fixed abody c tid u f todo,
@@ -49,11 +105,10 @@ Theorem C33_wait_blocks : forall ts fixed abody c tid u f todo,
 Proof. exact aio_wait_blocks. Qed.
 Print Assumptions C33_wait_blocks.
 
-(* actions start on the loop thread only *)
+(* actions start on the loop thread only -- either class, repaired or not, any foreign threads: no side condition *)
 Theorem C33_on_loop_thread : forall ts fixed abody t0 pre segs progs sched tid t u,
-  (ts && fixed = true \/ progs = []) ->
   In (tid, t, AStart u) (a_log (arun ts fixed abody (ainit t0 pre segs progs) sched)) -> tid = 0%nat.
-Proof. exact aio_on_loop_thread. Qed.
+Proof. exact aio_on_loop_thread_all. Qed.
 Print Assumptions C33_on_loop_thread.
 
 (* ---- "no earlier than their due time" ------------------------------------------------------------- *)
@@ -216,4 +271,14 @@ Example C33_ex_busy_callback_stop_run_again :
   map snd (a_log c) = [ARet 0; AStart 0; ARet 1; ASlept; AStopEv; AEnd 0; ASlept; AStart 1; AEnd 1; ADispRet 1]%nat /\
   map (fun x => snd (fst x)) (a_log c) = [0; 0; 0; 1000; 1000; 1000; 5000; 5000; 5000; 5000] /\
   map astatus (a_ths c) = [2; 1]%nat.
+Proof. vm_compute. repeat split; reflexivity. Qed.
+
+(* the plain scheduler with two foreign threads while the loop runs: T1 schedule_relative(1000), T1 dispose() --
+   direct, returns; T2 dispose() -- no-op (the hypotheses of C33_noop_after_winner_returned); the clock passes
+   the due time, the loop wakes up: nothing starts *)
+Example C33_ex_plain_foreign_dispose :
+  let c := arun false true noaction (ainit 0 [] [] [[ARel 1000; ADispose 0%nat]; [ADispose 0%nat]])
+                ([AMStep 0; AMStep 1; AMStep 0; AMStep 1; AMStep 2; AMTick 1000] ++ repeat (AMStep 0%nat) 6)%nat in
+  map snd (a_log c) = [ARet 0; ADispRet 0; ADispNoop 0]%nat /\ arunning (a_sh c) = true /\
+  a_ths c = [AL (LIdle None); AF None []; AF None []] /\ aclock (a_sh c) = 1000.
 Proof. vm_compute. repeat split; reflexivity. Qed.
